@@ -1014,12 +1014,12 @@ Proof.
     unfold wf_other. simpl. repeat split; auto. destruct Href as [_ [Hi _]]. apply Hi. simpl; auto.
 Qed.
 
-(* =============================================================== the engine's three-operand full join *)
+(* =============================================================== the left-deep three-operand full join (repaired engine defect) *)
 Definition ex_A : operand := ("DS_1", mkD ["Id_1"] ["Me_1"] [([VInt 1], [VInt 10]); ([VInt 2], [VInt 11])]).
 Definition ex_B : operand := ("DS_2", mkD ["Id_1"] ["Me_2"] [([VInt 2], [VInt 20]); ([VInt 3], [VInt 21])]).
 Definition ex_C : operand := ("DS_3", mkD ["Id_1"] ["Me_3"] [([VInt 3], [VInt 30]); ([VInt 4], [VInt 31]); ([VInt 1], [VInt 32])]).
 
-(* key 3 is missing in the first operand: the engine-faithful variant returns TWO datapoints for it, the relational full join one *)
+(* key 3 is missing in the first operand: the left-deep variant returns TWO datapoints for it, the relational full join one *)
 Lemma full_join_impl_refuted :
   exists ops, Forall wf_operand ops /\
     (exists res, d_join_impl JFull None ops = Ok res /\ uniq_keys (d_rows res) = false /\
